@@ -10,10 +10,21 @@
      hash function.  [rsnd] forgets the memo fields returned next to the result.
    * The memo argument [m] is arbitrary in every statement.
    * Out of scope (stated in Spec/Legacy.v, Spec/Bip143.v, Spec/Bip341.v): OP_CODESEPARATOR and
-     FindAndDelete — script codes are taken after those steps. *)
-From V Require Import Base.Prelude Base.Ints Model.Helper Model.Script Model.Tx Model.Sighash
-  Model.SighashAbs Spec.TxData Proofs.SighashP Proofs.SighashLegacyP Proofs.SighashSegwitP
-  Proofs.SighashTaprootP Proofs.SighashHistP Proofs.SighashDispatchP Proofs.SighashCorP.
+     FindAndDelete — script codes are taken after those steps.
+   * Sections (4)–(9) are about the digest AT THE POINT OF USE (Model/SighashSig.v): the op codes
+     that verify and the Tx methods that sign.  The signature primitives of buidl/pecc.py are the
+     fields of an arbitrary record [pr : sigprims] (universally quantified, like the hashes);
+     [fresh_digest … t sp idx ht] is what Tx.sig_hash(idx, ht) returns on a fresh object with the
+     fields of t; [encodes cs raw] says raw is the minimal-push serialisation of the commands cs;
+     [same_core t t'] says t' differs from t at most in scriptSigs and witnesses. *)
+From V Require Import Base.Prelude Base.Ints Model.Helper Model.Script Model.Op Model.Interp Model.Pecc
+  Model.Taproot Model.Verify Model.Tx Model.Sighash Model.SighashAbs Model.SighashSig
+  Spec.TxData Spec.TxWf Spec.SigHashType Proofs.MultisigP Proofs.VerifyP
+  Proofs.SighashP Proofs.SighashLegacyP Proofs.SighashSegwitP
+  Proofs.SighashTaprootP Proofs.SighashHistP Proofs.SighashDispatchP Proofs.SighashCorP
+  Proofs.SighashKindsP Proofs.SighashSigP Proofs.SighashSignP Proofs.SighashSiteSpecP
+  Proofs.SighashRefuteP Proofs.SighashVerifyExtP Proofs.SighashStdP Proofs.ToyCurve Proofs.SighashToyP.
+From V Require Spec.SighashStd.
 From V Require Spec.Legacy Spec.Bip143 Spec.Bip341.
 
 (* ---------------- (1) the three algorithms ---------------- *)
@@ -255,6 +266,854 @@ Theorem C05_sig_hash_p2tr_keypath :
 Proof. exact sig_hash_p2tr_keypath. Qed.
 Print Assumptions C05_sig_hash_p2tr_keypath.
 
+(* ---------------- (4) every standard kind, end to end through Tx.sig_hash ---------------- *)
+
+(* a raw script that is the minimal-push encoding of a command list is parsed back to those commands
+   by RedeemScript.convert / WitnessScript.convert / Witness.tap_script and re-serialised to the
+   same bytes: the hypotheses "script_convert raw = Ok w" / "abs_script ts = Ok s" of the dispatch
+   and script-path theorems above hold for every such script (from the C04 script round trip) *)
+Theorem C05_script_convert_canonical : forall cs raw,
+  encodes cs raw ->
+  script_convert raw = Ok (mk_script cs) /\ abs_script (mk_script cs) = Ok raw /\
+  zlen raw < 9223372036854775808.
+Proof. exact script_convert_canonical. Qed.
+Print Assumptions C05_script_convert_canonical.
+
+Theorem C05_sig_hash_p2pkh :
+  forall hash256 sha256 hash_tapsighash hash_tapleaf xonly_ok t ct sp idx ti s h ht m,
+  standard_hash_type ht = true -> abs_tx t = Ok ct ->
+  nth_error (t_ins t) idx = Some ti -> nth_error sp idx = Some s ->
+  sp_script s = mk_script (p2pkh_script h) -> length h = 20%nat ->
+  rsnd (sig_hash hash256 sha256 hash_tapsighash hash_tapleaf xonly_ok t sp idx ht m) =
+  Ok (legacy_out hash256 (Bip143.p2wpkh_script_code h) ct idx ht).
+Proof. exact sig_hash_p2pkh. Qed.
+Print Assumptions C05_sig_hash_p2pkh.
+
+(* bare scripts (multisig, pay-to-pubkey, anything that is none of the five templates) *)
+Theorem C05_sig_hash_bare :
+  forall hash256 sha256 hash_tapsighash hash_tapleaf xonly_ok t ct sp idx ti s cb ht m,
+  standard_hash_type ht = true -> abs_tx t = Ok ct ->
+  nth_error (t_ins t) idx = Some ti -> nth_error sp idx = Some s ->
+  is_p2sh (s_cmds (sp_script s)) = false -> is_p2wpkh (s_cmds (sp_script s)) = false ->
+  is_p2wsh (s_cmds (sp_script s)) = false -> is_p2tr (s_cmds (sp_script s)) = false ->
+  abs_script (sp_script s) = Ok cb ->
+  rsnd (sig_hash hash256 sha256 hash_tapsighash hash_tapleaf xonly_ok t sp idx ht m) =
+  Ok (legacy_out hash256 cb ct idx ht).
+Proof. exact sig_hash_bare. Qed.
+Print Assumptions C05_sig_hash_bare.
+
+(* P2SH: original algorithm, script code = the redeem script byte for byte *)
+Theorem C05_sig_hash_p2sh :
+  forall hash256 sha256 hash_tapsighash hash_tapleaf xonly_ok t ct sp idx ti s h cs raw ht m,
+  standard_hash_type ht = true -> abs_tx t = Ok ct ->
+  nth_error (t_ins t) idx = Some ti -> nth_error sp idx = Some s ->
+  sp_script s = mk_script (p2sh_script h) -> length h = 20%nat ->
+  nth_last 0 (s_cmds (i_script ti)) = Some (Push raw) -> encodes cs raw ->
+  is_p2wpkh cs = false -> is_p2wsh cs = false ->
+  rsnd (sig_hash hash256 sha256 hash_tapsighash hash_tapleaf xonly_ok t sp idx ht m) =
+  Ok (legacy_out hash256 raw ct idx ht).
+Proof. exact sig_hash_p2sh. Qed.
+Print Assumptions C05_sig_hash_p2sh.
+
+Theorem C05_sig_hash_p2sh_p2wpkh :
+  forall hash256 sha256 hash_tapsighash hash_tapleaf xonly_ok t ct sp idx ti s h h20 ht m,
+  standard_hash_type ht = true -> abs_tx t = Ok ct ->
+  nth_error (t_ins t) idx = Some ti -> nth_error sp idx = Some s ->
+  sp_script s = mk_script (p2sh_script h) -> length h = 20%nat -> in_u64 (sp_value s) = true ->
+  nth_last 0 (s_cmds (i_script ti)) = Some (Push (0 :: 20 :: h20)) -> length h20 = 20%nat ->
+  rsnd (sig_hash hash256 sha256 hash_tapsighash hash_tapleaf xonly_ok t sp idx ht m) =
+  bip143_out hash256 (Bip143.p2wpkh_script_code h20) (sp_value s) ct idx ht.
+Proof. exact sig_hash_p2sh_p2wpkh. Qed.
+Print Assumptions C05_sig_hash_p2sh_p2wpkh.
+
+(* P2WSH: BIP143, script code = the witness script byte for byte *)
+Theorem C05_sig_hash_p2wsh :
+  forall hash256 sha256 hash_tapsighash hash_tapleaf xonly_ok t ct sp idx ti s h cs raw ht m,
+  standard_hash_type ht = true -> abs_tx t = Ok ct ->
+  nth_error (t_ins t) idx = Some ti -> nth_error sp idx = Some s ->
+  sp_script s = mk_script (p2wsh_script h) -> length h = 32%nat -> in_u64 (sp_value s) = true ->
+  nth_last 0 (i_witness ti) = Some raw -> encodes cs raw ->
+  rsnd (sig_hash hash256 sha256 hash_tapsighash hash_tapleaf xonly_ok t sp idx ht m) =
+  bip143_out hash256 raw (sp_value s) ct idx ht.
+Proof. exact sig_hash_p2wsh. Qed.
+Print Assumptions C05_sig_hash_p2wsh.
+
+Theorem C05_sig_hash_p2sh_p2wsh :
+  forall hash256 sha256 hash_tapsighash hash_tapleaf xonly_ok t ct sp idx ti s h h32 cs raw ht m,
+  standard_hash_type ht = true -> abs_tx t = Ok ct ->
+  nth_error (t_ins t) idx = Some ti -> nth_error sp idx = Some s ->
+  sp_script s = mk_script (p2sh_script h) -> length h = 20%nat -> in_u64 (sp_value s) = true ->
+  nth_last 0 (s_cmds (i_script ti)) = Some (Push (0 :: 32 :: h32)) -> length h32 = 32%nat ->
+  nth_last 0 (i_witness ti) = Some raw -> encodes cs raw ->
+  rsnd (sig_hash hash256 sha256 hash_tapsighash hash_tapleaf xonly_ok t sp idx ht m) =
+  bip143_out hash256 raw (sp_value s) ct idx ht.
+Proof. exact sig_hash_p2sh_p2wsh. Qed.
+Print Assumptions C05_sig_hash_p2sh_p2wsh.
+
+(* P2TR script path: BIP341 message with the BIP342 extension for the leaf named by the witness *)
+Theorem C05_sig_hash_p2tr_scriptpath :
+  forall hash256 sha256 hash_tapsighash hash_tapleaf xonly_ok t ct sp coins idx ti s x v scr c cs ht m,
+  standard_hash_type ht = true -> abs_tx t = Ok ct -> abs_list abs_spent sp = Ok coins ->
+  length sp = length (t_ins t) ->
+  nth_error (t_ins t) idx = Some ti -> nth_error sp idx = Some s ->
+  sp_script s = mk_script (p2tr_script x) -> length x = 32%nat ->
+  in_u32 (Z.of_nat idx) = true ->
+  (forall a, annex_of (i_witness ti) = Some a -> in_u64 (zlen a) = true) ->
+  Bip341.script_path xonly_ok (snd (Bip341.split_annex (i_witness ti))) = Some (v, scr, c) ->
+  bytes_ok c -> encodes cs scr ->
+  rsnd (sig_hash hash256 sha256 hash_tapsighash hash_tapleaf xonly_ok t sp idx ht m) =
+  bip341_out sha256 hash_tapsighash hash_tapleaf ct coins idx ht (annex_of (i_witness ti)) (Some (v, scr)).
+Proof. exact sig_hash_p2tr_scriptpath. Qed.
+Print Assumptions C05_sig_hash_p2tr_scriptpath.
+
+(* … packaged: for every standard kind Tx.sig_hash is Spec/SighashStd.std_sighash — the one function
+   that tabulates algorithm and script code per kind of spent output (and that the harness runs,
+   extracted, against the implementation on every generated case) — evaluated on the transaction
+   and coins the objects denote, the last push of the scriptSig and the witness *)
+Theorem C05_sig_hash_std_p2pkh :
+  forall hash256 sha256 hash_tapsighash hash_tapleaf xonly_ok t ct sp coins idx ti s h ht m,
+  standard_hash_type ht = true -> abs_tx t = Ok ct -> abs_list abs_spent sp = Ok coins ->
+  nth_error (t_ins t) idx = Some ti -> nth_error sp idx = Some s ->
+  sp_script s = mk_script (p2pkh_script h) -> length h = 20%nat ->
+  rsnd (sig_hash hash256 sha256 hash_tapsighash hash_tapleaf xonly_ok t sp idx ht m) =
+  std_view (SighashStd.std_sighash hash256 sha256 hash_tapsighash hash_tapleaf xonly_ok ct coins idx ht
+              (last_push (i_script ti)) (i_witness ti)).
+Proof. exact sig_hash_std_p2pkh. Qed.
+Print Assumptions C05_sig_hash_std_p2pkh.
+
+Theorem C05_sig_hash_std_p2wpkh :
+  forall hash256 sha256 hash_tapsighash hash_tapleaf xonly_ok t ct sp coins idx ti s h ht m,
+  standard_hash_type ht = true -> abs_tx t = Ok ct -> abs_list abs_spent sp = Ok coins ->
+  nth_error (t_ins t) idx = Some ti -> nth_error sp idx = Some s ->
+  sp_script s = mk_script (p2wpkh_script h) -> length h = 20%nat ->
+  rsnd (sig_hash hash256 sha256 hash_tapsighash hash_tapleaf xonly_ok t sp idx ht m) =
+  std_view (SighashStd.std_sighash hash256 sha256 hash_tapsighash hash_tapleaf xonly_ok ct coins idx ht
+              (last_push (i_script ti)) (i_witness ti)).
+Proof. exact sig_hash_std_p2wpkh. Qed.
+Print Assumptions C05_sig_hash_std_p2wpkh.
+
+Theorem C05_sig_hash_std_p2wsh :
+  forall hash256 sha256 hash_tapsighash hash_tapleaf xonly_ok t ct sp coins idx ti s h cs raw ht m,
+  standard_hash_type ht = true -> abs_tx t = Ok ct -> abs_list abs_spent sp = Ok coins ->
+  nth_error (t_ins t) idx = Some ti -> nth_error sp idx = Some s ->
+  sp_script s = mk_script (p2wsh_script h) -> length h = 32%nat ->
+  nth_last 0 (i_witness ti) = Some raw -> encodes cs raw ->
+  rsnd (sig_hash hash256 sha256 hash_tapsighash hash_tapleaf xonly_ok t sp idx ht m) =
+  std_view (SighashStd.std_sighash hash256 sha256 hash_tapsighash hash_tapleaf xonly_ok ct coins idx ht
+              (last_push (i_script ti)) (i_witness ti)).
+Proof. exact sig_hash_std_p2wsh. Qed.
+Print Assumptions C05_sig_hash_std_p2wsh.
+
+Theorem C05_sig_hash_std_p2sh :
+  forall hash256 sha256 hash_tapsighash hash_tapleaf xonly_ok t ct sp coins idx ti s h cs raw ht m,
+  standard_hash_type ht = true -> abs_tx t = Ok ct -> abs_list abs_spent sp = Ok coins ->
+  nth_error (t_ins t) idx = Some ti -> nth_error sp idx = Some s ->
+  sp_script s = mk_script (p2sh_script h) -> length h = 20%nat ->
+  nth_last 0 (s_cmds (i_script ti)) = Some (Push raw) -> encodes cs raw ->
+  is_p2wpkh cs = false -> is_p2wsh cs = false ->
+  rsnd (sig_hash hash256 sha256 hash_tapsighash hash_tapleaf xonly_ok t sp idx ht m) =
+  std_view (SighashStd.std_sighash hash256 sha256 hash_tapsighash hash_tapleaf xonly_ok ct coins idx ht
+              (last_push (i_script ti)) (i_witness ti)).
+Proof. exact sig_hash_std_p2sh. Qed.
+Print Assumptions C05_sig_hash_std_p2sh.
+
+Theorem C05_sig_hash_std_p2sh_p2wpkh :
+  forall hash256 sha256 hash_tapsighash hash_tapleaf xonly_ok t ct sp coins idx ti s h h20 ht m,
+  standard_hash_type ht = true -> abs_tx t = Ok ct -> abs_list abs_spent sp = Ok coins ->
+  nth_error (t_ins t) idx = Some ti -> nth_error sp idx = Some s ->
+  sp_script s = mk_script (p2sh_script h) -> length h = 20%nat ->
+  nth_last 0 (s_cmds (i_script ti)) = Some (Push (0 :: 20 :: h20)) -> length h20 = 20%nat ->
+  rsnd (sig_hash hash256 sha256 hash_tapsighash hash_tapleaf xonly_ok t sp idx ht m) =
+  std_view (SighashStd.std_sighash hash256 sha256 hash_tapsighash hash_tapleaf xonly_ok ct coins idx ht
+              (last_push (i_script ti)) (i_witness ti)).
+Proof. exact sig_hash_std_p2sh_p2wpkh. Qed.
+Print Assumptions C05_sig_hash_std_p2sh_p2wpkh.
+
+Theorem C05_sig_hash_std_p2sh_p2wsh :
+  forall hash256 sha256 hash_tapsighash hash_tapleaf xonly_ok t ct sp coins idx ti s h h32 cs raw ht m,
+  standard_hash_type ht = true -> abs_tx t = Ok ct -> abs_list abs_spent sp = Ok coins ->
+  nth_error (t_ins t) idx = Some ti -> nth_error sp idx = Some s ->
+  sp_script s = mk_script (p2sh_script h) -> length h = 20%nat ->
+  nth_last 0 (s_cmds (i_script ti)) = Some (Push (0 :: 32 :: h32)) -> length h32 = 32%nat ->
+  nth_last 0 (i_witness ti) = Some raw -> encodes cs raw ->
+  rsnd (sig_hash hash256 sha256 hash_tapsighash hash_tapleaf xonly_ok t sp idx ht m) =
+  std_view (SighashStd.std_sighash hash256 sha256 hash_tapsighash hash_tapleaf xonly_ok ct coins idx ht
+              (last_push (i_script ti)) (i_witness ti)).
+Proof. exact sig_hash_std_p2sh_p2wsh. Qed.
+Print Assumptions C05_sig_hash_std_p2sh_p2wsh.
+
+Theorem C05_sig_hash_std_p2tr_keypath :
+  forall hash256 sha256 hash_tapsighash hash_tapleaf xonly_ok t ct sp coins idx ti s x ht m,
+  standard_hash_type ht = true -> abs_tx t = Ok ct -> abs_list abs_spent sp = Ok coins ->
+  length sp = length (t_ins t) ->
+  nth_error (t_ins t) idx = Some ti -> nth_error sp idx = Some s ->
+  sp_script s = mk_script (p2tr_script x) -> length x = 32%nat ->
+  in_u32 (Z.of_nat idx) = true ->
+  (forall a, annex_of (i_witness ti) = Some a -> in_u64 (zlen a) = true) ->
+  zlen (snd (Bip341.split_annex (i_witness ti))) = 1 ->
+  rsnd (sig_hash hash256 sha256 hash_tapsighash hash_tapleaf xonly_ok t sp idx ht m) =
+  std_view (SighashStd.std_sighash hash256 sha256 hash_tapsighash hash_tapleaf xonly_ok ct coins idx ht
+              (last_push (i_script ti)) (i_witness ti)).
+Proof. exact sig_hash_std_p2tr_keypath. Qed.
+Print Assumptions C05_sig_hash_std_p2tr_keypath.
+
+Theorem C05_sig_hash_std_p2tr_scriptpath :
+  forall hash256 sha256 hash_tapsighash hash_tapleaf xonly_ok t ct sp coins idx ti s x v scr c0 cs ht m,
+  standard_hash_type ht = true -> abs_tx t = Ok ct -> abs_list abs_spent sp = Ok coins ->
+  length sp = length (t_ins t) ->
+  nth_error (t_ins t) idx = Some ti -> nth_error sp idx = Some s ->
+  sp_script s = mk_script (p2tr_script x) -> length x = 32%nat ->
+  in_u32 (Z.of_nat idx) = true ->
+  (forall a, annex_of (i_witness ti) = Some a -> in_u64 (zlen a) = true) ->
+  Bip341.script_path xonly_ok (snd (Bip341.split_annex (i_witness ti))) = Some (v, scr, c0) ->
+  bytes_ok c0 -> encodes cs scr ->
+  rsnd (sig_hash hash256 sha256 hash_tapsighash hash_tapleaf xonly_ok t sp idx ht m) =
+  std_view (SighashStd.std_sighash hash256 sha256 hash_tapsighash hash_tapleaf xonly_ok ct coins idx ht
+              (last_push (i_script ti)) (i_witness ti)).
+Proof. exact sig_hash_std_p2tr_scriptpath. Qed.
+Print Assumptions C05_sig_hash_std_p2tr_scriptpath.
+
+(* ---------------- (5) the verifying op codes: the digest of the signature's OWN hash type -------- *)
+
+(* the memo fields of the Tx object influence no verdict *)
+Theorem C05_sites_memo_irrelevant :
+  forall hash256 sha256 hash_tapsighash hash_tapleaf xonly_ok pr t sp idx m1 m2 s,
+  let so1 := tx_sigops hash256 sha256 hash_tapsighash hash_tapleaf xonly_ok pr t sp idx m1 in
+  let so2 := tx_sigops hash256 sha256 hash_tapsighash hash_tapleaf xonly_ok pr t sp idx m2 in
+  op_checksig so1 s = op_checksig so2 s /\ op_checkmultisig so1 s = op_checkmultisig so2 s /\
+  op_checksig_schnorr so1 s = op_checksig_schnorr so2 s /\
+  op_checksigadd_schnorr so1 s = op_checksigadd_schnorr so2 s.
+Proof.
+  intros. split; [apply op_checksig_indep|]. split; [apply op_checkmultisig_indep|].
+  split; [apply op_checksig_schnorr_indep|apply op_checksigadd_schnorr_indep].
+Qed.
+Print Assumptions C05_sites_memo_irrelevant.
+
+(* OP_CHECKSIG: DER || hash type byte; the ECDSA primitive gets Tx.sig_hash(idx, that byte) *)
+Theorem C05_op_checksig_own_digest :
+  forall hash256 sha256 hash_tapsighash hash_tapleaf xonly_ok pr t sp idx m sec sg r,
+  op_checksig (tx_sigops hash256 sha256 hash_tapsighash hash_tapleaf xonly_ok pr t sp idx m) (sec :: sg :: r) =
+  match ecdsa_sig_hash_type sg with
+  | None => Err
+  | Some (der, ht) =>
+      d <- fresh_digest hash256 sha256 hash_tapsighash hash_tapleaf xonly_ok t sp idx ht ;;
+      b <- pr_ecdsa pr sec der d ;; Ok (enc_bool b :: r)
+  end.
+Proof. exact op_checksig_own_digest. Qed.
+Print Assumptions C05_op_checksig_own_digest.
+
+(* OP_CHECKMULTISIG on [dummy, sig_1 .. sig_m, m, key_1 .. key_n, n] (top first below): accepted
+   exactly when every key parses and the signatures match keys in order, each signature judged
+   with the digest of ITS OWN hash type byte ([multisig_ver]) *)
+Theorem C05_op_checkmultisig_own_digests :
+  forall hash256 sha256 hash_tapsighash hash_tapleaf xonly_ok pr t sp idx m secs sigs en em dummy r,
+  decode_num en = zlen secs -> decode_num em = zlen sigs ->
+  op_checkmultisig (tx_sigops hash256 sha256 hash_tapsighash hash_tapleaf xonly_ok pr t sp idx m)
+    (en :: secs ++ em :: sigs ++ dummy :: r) =
+  if existsb (fun sg : bytes => match sg with [] => true | _ => false end) sigs then Err
+  else if forallb (pr_sec_ok pr) secs &&
+          match_sigs (multisig_ver hash256 sha256 hash_tapsighash hash_tapleaf xonly_ok pr t sp idx) sigs secs
+       then Ok (encode_num 1 :: r) else Err.
+Proof. exact op_checkmultisig_own_digests. Qed.
+Print Assumptions C05_op_checkmultisig_own_digests.
+
+Theorem C05_multisig_ver_def :
+  forall hash256 sha256 hash_tapsighash hash_tapleaf xonly_ok pr t sp idx k sg,
+  multisig_ver hash256 sha256 hash_tapsighash hash_tapleaf xonly_ok pr t sp idx k sg =
+  match ecdsa_sig_hash_type sg with
+  | None => false
+  | Some (der, ht) =>
+      is_ok_true (d <- fresh_digest hash256 sha256 hash_tapsighash hash_tapleaf xonly_ok t sp idx ht ;;
+                  pr_ecdsa pr k der d)
+  end.
+Proof. reflexivity. Qed.
+Print Assumptions C05_multisig_ver_def.
+
+(* tapscript OP_CHECKSIG / OP_CHECKSIGADD (and the key-path rule, which calls the former): for every
+   signature BIP341 declares well-formed — 64 bytes: SIGHASH_DEFAULT; 65 bytes with a non-zero last
+   byte: that byte — the Schnorr primitive gets Tx.sig_hash(idx, that hash type) *)
+Theorem C05_op_checksig_schnorr_own_digest :
+  forall hash256 sha256 hash_tapsighash hash_tapleaf xonly_ok pr t sp idx m pk sg s64 ht r,
+  xonly_ok pk = true -> taproot_sig_hash_type sg = Some (s64, ht) ->
+  op_checksig_schnorr (tx_sigops hash256 sha256 hash_tapsighash hash_tapleaf xonly_ok pr t sp idx m)
+    (pk :: sg :: r) =
+  (d <- fresh_digest hash256 sha256 hash_tapsighash hash_tapleaf xonly_ok t sp idx ht ;;
+   b <- pr_schnorr pr pk s64 d ;; Ok (enc_bool b :: r)) /\
+  forall en,
+  op_checksigadd_schnorr (tx_sigops hash256 sha256 hash_tapsighash hash_tapleaf xonly_ok pr t sp idx m)
+    (pk :: en :: sg :: r) =
+  (d <- fresh_digest hash256 sha256 hash_tapsighash hash_tapleaf xonly_ok t sp idx ht ;;
+   b <- pr_schnorr pr pk s64 d ;;
+   Ok (encode_num (if b then decode_num en + 1 else decode_num en) :: r)).
+Proof.
+  intros hash256 sha256 hash_tapsighash hash_tapleaf xonly_ok pr t sp idx m pk sg s64 ht r Hpk Hsg. split.
+  - exact (op_checksig_schnorr_own_digest hash256 sha256 hash_tapsighash hash_tapleaf xonly_ok pr
+             t sp idx m pk sg s64 ht r Hpk Hsg).
+  - intros en. exact (op_checksigadd_schnorr_own_digest hash256 sha256 hash_tapsighash hash_tapleaf xonly_ok pr
+                        t sp idx m pk en sg s64 ht r Hpk Hsg).
+Qed.
+Print Assumptions C05_op_checksig_schnorr_own_digest.
+
+(* BIP342: an empty signature is "not signed" (no digest is computed); an unusable key fails *)
+Theorem C05_op_checksig_schnorr_empty_or_bad_key :
+  forall hash256 sha256 hash_tapsighash hash_tapleaf xonly_ok pr t sp idx m pk sg r,
+  let so := tx_sigops hash256 sha256 hash_tapsighash hash_tapleaf xonly_ok pr t sp idx m in
+  (xonly_ok pk = true ->
+   op_checksig_schnorr so (pk :: [] :: r) = Ok (encode_num 0 :: r) /\
+   forall en, op_checksigadd_schnorr so (pk :: en :: [] :: r) = Ok (encode_num (decode_num en) :: r)) /\
+  (xonly_ok pk = false ->
+   op_checksig_schnorr so (pk :: sg :: r) = Err /\
+   forall en, op_checksigadd_schnorr so (pk :: en :: sg :: r) = Err).
+Proof.
+  intros. split.
+  - exact (op_checksig_schnorr_empty hash256 sha256 hash_tapsighash hash_tapleaf xonly_ok pr t sp idx m pk r).
+  - exact (op_checksig_schnorr_bad_key hash256 sha256 hash_tapsighash hash_tapleaf xonly_ok pr t sp idx m pk sg r).
+Qed.
+Print Assumptions C05_op_checksig_schnorr_empty_or_bad_key.
+
+(* ---------------- (6) the same, in terms of the standards ---------------- *)
+
+Theorem C05_op_checksig_p2pkh_spec :
+  forall hash256 sha256 hash_tapsighash hash_tapleaf xonly_ok pr t ct sp idx m ti s h sec sg r,
+  abs_tx t = Ok ct -> nth_error (t_ins t) idx = Some ti -> nth_error sp idx = Some s ->
+  sp_script s = mk_script (p2pkh_script h) -> length h = 20%nat ->
+  sg <> [] -> standard_hash_type (last sg 0) = true ->
+  op_checksig (tx_sigops hash256 sha256 hash_tapsighash hash_tapleaf xonly_ok pr t sp idx m) (sec :: sg :: r) =
+  (b <- pr_ecdsa pr sec (removelast sg)
+          (legacy_digest hash256 (Bip143.p2wpkh_script_code h) ct idx (last sg 0)) ;; Ok (enc_bool b :: r)).
+Proof. exact op_checksig_p2pkh_spec. Qed.
+Print Assumptions C05_op_checksig_p2pkh_spec.
+
+Theorem C05_op_checksig_p2wpkh_spec :
+  forall hash256 sha256 hash_tapsighash hash_tapleaf xonly_ok pr t ct sp idx m ti s h sec sg r,
+  abs_tx t = Ok ct -> nth_error (t_ins t) idx = Some ti -> nth_error sp idx = Some s ->
+  sp_script s = mk_script (p2wpkh_script h) -> length h = 20%nat -> in_u64 (sp_value s) = true ->
+  sg <> [] -> standard_hash_type (last sg 0) = true ->
+  op_checksig (tx_sigops hash256 sha256 hash_tapsighash hash_tapleaf xonly_ok pr t sp idx m) (sec :: sg :: r) =
+  (d <- bip143_digest hash256 (Bip143.p2wpkh_script_code h) (sp_value s) ct idx (last sg 0) ;;
+   b <- pr_ecdsa pr sec (removelast sg) d ;; Ok (enc_bool b :: r)).
+Proof. exact op_checksig_p2wpkh_spec. Qed.
+Print Assumptions C05_op_checksig_p2wpkh_spec.
+
+(* one (key, signature) test of OP_CHECKMULTISIG inside a P2WSH witness script / a P2SH redeem
+   script: the BIP143 / original digest of the signature's own (standard) hash type, script code
+   = the witness / redeem script as it is on the wire *)
+Theorem C05_multisig_ver_p2wsh_spec :
+  forall hash256 sha256 hash_tapsighash hash_tapleaf xonly_ok pr t ct sp idx ti s h cs raw k sg,
+  abs_tx t = Ok ct -> nth_error (t_ins t) idx = Some ti -> nth_error sp idx = Some s ->
+  sp_script s = mk_script (p2wsh_script h) -> length h = 32%nat -> in_u64 (sp_value s) = true ->
+  nth_last 0 (i_witness ti) = Some raw -> encodes cs raw ->
+  sg <> [] -> standard_hash_type (last sg 0) = true ->
+  multisig_ver hash256 sha256 hash_tapsighash hash_tapleaf xonly_ok pr t sp idx k sg =
+  is_ok_true (d <- bip143_digest hash256 raw (sp_value s) ct idx (last sg 0) ;;
+              pr_ecdsa pr k (removelast sg) d).
+Proof. exact multisig_ver_p2wsh_spec. Qed.
+Print Assumptions C05_multisig_ver_p2wsh_spec.
+
+Theorem C05_multisig_ver_p2sh_spec :
+  forall hash256 sha256 hash_tapsighash hash_tapleaf xonly_ok pr t ct sp idx ti s h cs raw k sg,
+  abs_tx t = Ok ct -> nth_error (t_ins t) idx = Some ti -> nth_error sp idx = Some s ->
+  sp_script s = mk_script (p2sh_script h) -> length h = 20%nat ->
+  nth_last 0 (s_cmds (i_script ti)) = Some (Push raw) -> encodes cs raw ->
+  is_p2wpkh cs = false -> is_p2wsh cs = false ->
+  sg <> [] -> standard_hash_type (last sg 0) = true ->
+  multisig_ver hash256 sha256 hash_tapsighash hash_tapleaf xonly_ok pr t sp idx k sg =
+  is_ok_true (pr_ecdsa pr k (removelast sg) (legacy_digest hash256 raw ct idx (last sg 0))).
+Proof. exact multisig_ver_p2sh_spec. Qed.
+Print Assumptions C05_multisig_ver_p2sh_spec.
+
+Theorem C05_op_checksig_schnorr_keypath_spec :
+  forall hash256 sha256 hash_tapsighash hash_tapleaf xonly_ok pr t ct sp coins idx m ti s x pk sg s64 ht r,
+  abs_tx t = Ok ct -> abs_list abs_spent sp = Ok coins -> length sp = length (t_ins t) ->
+  nth_error (t_ins t) idx = Some ti -> nth_error sp idx = Some s ->
+  sp_script s = mk_script (p2tr_script x) -> length x = 32%nat ->
+  in_u32 (Z.of_nat idx) = true ->
+  (forall a, annex_of (i_witness ti) = Some a -> in_u64 (zlen a) = true) ->
+  zlen (snd (Bip341.split_annex (i_witness ti))) = 1 ->
+  xonly_ok pk = true -> taproot_sig_hash_type sg = Some (s64, ht) -> standard_hash_type ht = true ->
+  op_checksig_schnorr (tx_sigops hash256 sha256 hash_tapsighash hash_tapleaf xonly_ok pr t sp idx m)
+    (pk :: sg :: r) =
+  (d <- bip341_digest sha256 hash_tapsighash hash_tapleaf ct coins idx ht (annex_of (i_witness ti)) None ;;
+   b <- pr_schnorr pr pk s64 d ;; Ok (enc_bool b :: r)).
+Proof. exact op_checksig_schnorr_keypath_spec. Qed.
+Print Assumptions C05_op_checksig_schnorr_keypath_spec.
+
+Theorem C05_op_checksigadd_scriptpath_spec :
+  forall hash256 sha256 hash_tapsighash hash_tapleaf xonly_ok pr t ct sp coins idx m ti s x v scr c cs
+         pk en sg s64 ht r,
+  abs_tx t = Ok ct -> abs_list abs_spent sp = Ok coins -> length sp = length (t_ins t) ->
+  nth_error (t_ins t) idx = Some ti -> nth_error sp idx = Some s ->
+  sp_script s = mk_script (p2tr_script x) -> length x = 32%nat ->
+  in_u32 (Z.of_nat idx) = true ->
+  (forall a, annex_of (i_witness ti) = Some a -> in_u64 (zlen a) = true) ->
+  Bip341.script_path xonly_ok (snd (Bip341.split_annex (i_witness ti))) = Some (v, scr, c) ->
+  bytes_ok c -> encodes cs scr ->
+  xonly_ok pk = true -> taproot_sig_hash_type sg = Some (s64, ht) -> standard_hash_type ht = true ->
+  op_checksigadd_schnorr (tx_sigops hash256 sha256 hash_tapsighash hash_tapleaf xonly_ok pr t sp idx m)
+    (pk :: en :: sg :: r) =
+  (d <- bip341_digest sha256 hash_tapsighash hash_tapleaf ct coins idx ht (annex_of (i_witness ti)) (Some (v, scr)) ;;
+   b <- pr_schnorr pr pk s64 d ;;
+   Ok (encode_num (if b then decode_num en + 1 else decode_num en) :: r)) /\
+  op_checksig_schnorr (tx_sigops hash256 sha256 hash_tapsighash hash_tapleaf xonly_ok pr t sp idx m)
+    (pk :: sg :: r) =
+  (d <- bip341_digest sha256 hash_tapsighash hash_tapleaf ct coins idx ht (annex_of (i_witness ti)) (Some (v, scr)) ;;
+   b <- pr_schnorr pr pk s64 d ;; Ok (enc_bool b :: r)).
+Proof. exact op_checksigadd_scriptpath_spec. Qed.
+Print Assumptions C05_op_checksigadd_scriptpath_spec.
+
+(* ---------------- (7) where the library leaves the standards (outside the quantifier) ---------- *)
+
+(* BIP341: a 65-byte signature with hash type byte 0x00 is invalid.  The op codes (for ANY verdict
+   record) treat it exactly like the 64-byte signature it extends.  Replayed on the implementation:
+   Tx.verify_input accepts the key-path witness [sig64 || 00]. *)
+Theorem C05_schnorr_explicit_default_refuted : forall so pk s64 r,
+  length s64 = 64%nat ->
+  taproot_sig_hash_type (s64 ++ [0]) = None /\
+  taproot_sig_hash_type s64 = Some (s64, 0) /\
+  op_checksig_schnorr so (pk :: (s64 ++ [0]) :: r) = op_checksig_schnorr so (pk :: s64 :: r) /\
+  forall en, op_checksigadd_schnorr so (pk :: en :: (s64 ++ [0]) :: r) =
+             op_checksigadd_schnorr so (pk :: en :: s64 :: r).
+Proof. exact schnorr_explicit_default. Qed.
+Print Assumptions C05_schnorr_explicit_default_refuted.
+
+(* BIP341: a signature of any length other than 64 / 65 is invalid.  With the primitives of
+   buidl/pecc.py a signature followed by two or more arbitrary bytes gets the verdict of the
+   signature itself (hash type SIGHASH_DEFAULT; SchnorrSignature.parse reads 64 bytes).  Replayed:
+   verify_input accepts [sig64 || 2 or 10 junk bytes]. *)
+Theorem C05_schnorr_overlong_refuted :
+  forall hash256 sha256 hash_tapsighash hash_tapleaf xonly_ok C hm fuel t sp idx m pk s64 extra r,
+  length s64 = 64%nat -> (2 <= length extra)%nat ->
+  taproot_sig_hash_type (s64 ++ extra) = None /\
+  op_checksig_schnorr
+    (tx_sigops hash256 sha256 hash_tapsighash hash_tapleaf xonly_ok (pecc_prims C hm sha256 fuel) t sp idx m)
+    (pk :: (s64 ++ extra) :: r) =
+  op_checksig_schnorr
+    (tx_sigops hash256 sha256 hash_tapsighash hash_tapleaf xonly_ok (pecc_prims C hm sha256 fuel) t sp idx m)
+    (pk :: s64 :: r).
+Proof. exact schnorr_overlong. Qed.
+Print Assumptions C05_schnorr_overlong_refuted.
+
+(* BIP341 defines no message for a hash type outside 00 01 02 03 81 82 83; sig_hash_bip341 builds one
+   (witness: hash type 0x04).  Replayed: verify_input accepts 65-byte signatures with hash types
+   04, 80, 84, ff made over the library's own digest. *)
+Theorem C05_bip341_undefined_hash_type_refuted :
+  exists t sp idx ht p,
+    Bip341.valid_hash_type ht = false /\
+    (forall sha256 ext ct coins annex, Bip341.sig_msg sha256 ht ext ct coins idx annex = None) /\
+    rsnd (bip341_preimage idh idh (fun _ => true) t sp idx 0 ht memo_empty) = Ok p.
+Proof. exact bip341_undefined_hash_type. Qed.
+Print Assumptions C05_bip341_undefined_hash_type_refuted.
+
+(* original algorithm / BIP143 with a NON-standard hash type byte: consensus masks with 0x1f, the
+   library with 3 (witness: 0x06 — consensus hashes all outputs, the library none).  Replayed: for
+   hash types 06, 07, 86 Tx.sig_hash differs from the reference, for 04, 05, 20, 21, 22 it agrees. *)
+Theorem C05_legacy_hash_type_mask_refuted :
+  exists t ct idx code cb ht p1 p2,
+    abs_tx t = Ok ct /\ abs_script code = Ok cb /\ standard_hash_type ht = false /\
+    legacy_preimage t idx code ht = Ok (Some p1) /\ Legacy.preimage cb ct idx ht = Some p2 /\
+    p1 <> p2.
+Proof. exact legacy_hash_type_mask. Qed.
+Print Assumptions C05_legacy_hash_type_mask_refuted.
+
+(* ---------------- (8) signing: the digest signed is the digest verified ---------------- *)
+
+(* the three digests read only version, outputs, locktime and, of the inputs, outpoint and sequence
+   (BIP341: also the annex / tap leaf of the witness of the input being signed): filling in the
+   scriptSig or witness of any input leaves every earlier signature valid *)
+Theorem C05_digests_ignore_scriptsigs_and_witnesses :
+  forall hash256 sha256 hash_tapsighash hash_tapleaf xonly_ok t t' sp idx ht m,
+  same_core t t' ->
+  (forall redeem, sig_hash_legacy hash256 t sp idx redeem ht = sig_hash_legacy hash256 t' sp idx redeem ht) /\
+  (forall redeem wscript, sig_hash_bip143 hash256 t sp idx redeem wscript ht m =
+                          sig_hash_bip143 hash256 t' sp idx redeem wscript ht m) /\
+  (forall ext,
+     (forall ti ti', nth_error (t_ins t) idx = Some ti -> nth_error (t_ins t') idx = Some ti' ->
+                     wit_agree ext (i_witness ti) (i_witness ti')) ->
+     sig_hash_bip341 sha256 hash_tapsighash hash_tapleaf xonly_ok t sp idx ext ht m =
+     sig_hash_bip341 sha256 hash_tapsighash hash_tapleaf xonly_ok t' sp idx ext ht m).
+Proof.
+  intros hash256 sha256 hash_tapsighash hash_tapleaf xonly_ok t t' sp idx ht m H. split; [|split].
+  - intros redeem. exact (sig_hash_legacy_core hash256 t t' sp idx redeem ht H).
+  - intros redeem wscript. exact (sig_hash_bip143_core hash256 t t' sp idx redeem wscript ht m H).
+  - intros ext Hw.
+    exact (sig_hash_bip341_core sha256 hash_tapsighash hash_tapleaf xonly_ok t t' sp idx ext ht m H Hw).
+Qed.
+Print Assumptions C05_digests_ignore_scriptsigs_and_witnesses.
+
+Theorem C05_same_core_edit : forall t idx f,
+  (forall i, in_core_eq i (f i)) -> same_core t (tx_upd_in t idx f).
+Proof. exact same_core_upd. Qed.
+Print Assumptions C05_same_core_edit.
+
+(* Tx.get_sig_legacy on a P2PKH input signs the SIGHASH_ALL digest and appends 01; OP_CHECKSIG, on
+   ANY later state of the transaction (other inputs signed, this input finalised), recomputes that
+   very digest for the appended byte *)
+Theorem C05_signed_p2pkh_checked :
+  forall hash256 sha256 hash_tapsighash hash_tapleaf xonly_ok pr t sp idx s h secret sg,
+  nth_error sp idx = Some s -> sp_script s = mk_script (p2pkh_script h) ->
+  get_sig_legacy hash256 pr t sp idx secret None = Ok sg ->
+  exists p z der,
+    sig_hash_legacy hash256 t sp idx None 1 = Ok (p, z) /\ pr_sign pr secret (DInt z) = Ok der /\
+    sg = der ++ [1] /\
+    forall t' ti' m' sec r, same_core t t' -> nth_error (t_ins t') idx = Some ti' ->
+      op_checksig (tx_sigops hash256 sha256 hash_tapsighash hash_tapleaf xonly_ok pr t' sp idx m')
+        (sec :: sg :: r) =
+      (b <- pr_ecdsa pr sec der (DInt z) ;; Ok (enc_bool b :: r)).
+Proof. exact signed_p2pkh_checked. Qed.
+Print Assumptions C05_signed_p2pkh_checked.
+
+Theorem C05_signed_p2wpkh_checked :
+  forall hash256 sha256 hash_tapsighash hash_tapleaf xonly_ok pr t sp idx m s h secret sg,
+  nth_error sp idx = Some s -> sp_script s = mk_script (p2wpkh_script h) -> length h = 20%nat ->
+  get_sig_segwit hash256 pr t sp idx m secret None None = Ok sg ->
+  exists p z der,
+    rsnd (sig_hash_bip143 hash256 t sp idx None None 1 m) = Ok (p, z) /\
+    pr_sign pr secret (DInt z) = Ok der /\ sg = der ++ [1] /\
+    forall t' ti' m' sec r, same_core t t' -> nth_error (t_ins t') idx = Some ti' ->
+      op_checksig (tx_sigops hash256 sha256 hash_tapsighash hash_tapleaf xonly_ok pr t' sp idx m')
+        (sec :: sg :: r) =
+      (b <- pr_ecdsa pr sec der (DInt z) ;; Ok (enc_bool b :: r)).
+Proof. exact signed_p2wpkh_checked. Qed.
+Print Assumptions C05_signed_p2wpkh_checked.
+
+Theorem C05_signed_p2sh_p2wpkh_checked :
+  forall hash256 sha256 hash_tapsighash hash_tapleaf xonly_ok pr t sp idx m s h h20 secret sg,
+  nth_error sp idx = Some s -> sp_script s = mk_script (p2sh_script h) -> length h = 20%nat ->
+  length h20 = 20%nat ->
+  get_sig_segwit hash256 pr t sp idx m secret (Some (mk_script [Op 0; Push h20])) None = Ok sg ->
+  exists p z der,
+    rsnd (sig_hash_bip143 hash256 t sp idx (Some (mk_script [Op 0; Push h20])) None 1 m) = Ok (p, z) /\
+    pr_sign pr secret (DInt z) = Ok der /\ sg = der ++ [1] /\
+    forall t' ti' m' sec r, same_core t t' -> nth_error (t_ins t') idx = Some ti' ->
+      nth_last 0 (s_cmds (i_script ti')) = Some (Push (0 :: 20 :: h20)) ->
+      op_checksig (tx_sigops hash256 sha256 hash_tapsighash hash_tapleaf xonly_ok pr t' sp idx m')
+        (sec :: sg :: r) =
+      (b <- pr_ecdsa pr sec der (DInt z) ;; Ok (enc_bool b :: r)).
+Proof. exact signed_p2sh_p2wpkh_checked. Qed.
+Print Assumptions C05_signed_p2sh_p2wpkh_checked.
+
+(* taproot key path, any hash type: 64 bytes for SIGHASH_DEFAULT, 64 bytes || hash type otherwise
+   — the form BIP341 prescribes — and the key-path rule recomputes the signed message *)
+Theorem C05_signed_p2tr_keypath_checked :
+  forall hash256 sha256 hash_tapsighash hash_tapleaf xonly_ok pr t sp idx m ti s x secret ht aux sg,
+  nth_error (t_ins t) idx = Some ti -> nth_error sp idx = Some s ->
+  sp_script s = mk_script (p2tr_script x) -> length x = 32%nat -> has_annex (i_witness ti) = false ->
+  get_sig_taproot sha256 hash_tapsighash hash_tapleaf xonly_ok pr t sp idx m secret 0 ht aux = Ok sg ->
+  exists p msg s64,
+    rsnd (sig_hash_bip341 sha256 hash_tapsighash hash_tapleaf xonly_ok t sp idx 0 ht m) = Ok (p, msg) /\
+    pr_sign_schnorr pr secret (DBytes msg) aux = Ok s64 /\
+    sg = (if ht =? 0 then s64 else s64 ++ [ht]) /\
+    (length s64 = 64%nat -> taproot_sig_hash_type sg = Some (s64, ht) /\
+     forall t' ti' m' pk r, same_core t t' -> nth_error (t_ins t') idx = Some ti' ->
+       i_witness ti' = [sg] -> xonly_ok pk = true ->
+       op_checksig_schnorr (tx_sigops hash256 sha256 hash_tapsighash hash_tapleaf xonly_ok pr t' sp idx m')
+         (pk :: sg :: r) =
+       (b <- pr_schnorr pr pk s64 (DBytes msg) ;; Ok (enc_bool b :: r))).
+Proof. exact signed_p2tr_keypath_checked. Qed.
+Print Assumptions C05_signed_p2tr_keypath_checked.
+
+(* what the signing methods sign, in terms of the standards: Tx.get_sig_legacy (P2PKH; with an
+   explicit redeem script), Tx.get_sig_segwit (script code derived as in sig_hash_bip143),
+   Tx.get_sig_taproot (key path / script path), and Tx.check_sig_legacy / check_sig_segwit *)
+Theorem C05_get_sig_legacy_p2pkh_spec :
+  forall hash256 pr t ct sp idx ti s h secret,
+  abs_tx t = Ok ct -> nth_error (t_ins t) idx = Some ti -> nth_error sp idx = Some s ->
+  sp_script s = mk_script (p2pkh_script h) -> length h = 20%nat ->
+  get_sig_legacy hash256 pr t sp idx secret None =
+  (der <- pr_sign pr secret (legacy_digest hash256 (Bip143.p2wpkh_script_code h) ct idx 1) ;; Ok (der ++ [1])).
+Proof. exact get_sig_legacy_p2pkh_spec. Qed.
+Print Assumptions C05_get_sig_legacy_p2pkh_spec.
+
+Theorem C05_get_sig_legacy_redeem_spec :
+  forall hash256 pr t ct sp idx redeem cb secret,
+  abs_tx t = Ok ct -> abs_script redeem = Ok cb ->
+  get_sig_legacy hash256 pr t sp idx secret (Some redeem) =
+  (der <- pr_sign pr secret (legacy_digest hash256 cb ct idx 1) ;; Ok (der ++ [1])).
+Proof. exact get_sig_legacy_redeem_spec. Qed.
+Print Assumptions C05_get_sig_legacy_redeem_spec.
+
+Theorem C05_get_sig_segwit_spec :
+  forall hash256 pr t ct sp idx m redeem wscript s code cb secret,
+  abs_tx t = Ok ct -> nth_error sp idx = Some s -> in_u64 (sp_value s) = true ->
+  bip143_script_code redeem wscript (Some (sp_script s)) = Ok code -> abs_script code = Ok cb ->
+  get_sig_segwit hash256 pr t sp idx m secret redeem wscript =
+  (d <- bip143_digest hash256 cb (sp_value s) ct idx 1 ;; der <- pr_sign pr secret d ;; Ok (der ++ [1])).
+Proof. exact get_sig_segwit_spec. Qed.
+Print Assumptions C05_get_sig_segwit_spec.
+
+Theorem C05_get_sig_segwit_p2wpkh_spec :
+  forall hash256 pr t ct sp idx m s h secret,
+  abs_tx t = Ok ct -> nth_error sp idx = Some s -> in_u64 (sp_value s) = true ->
+  sp_script s = mk_script (p2wpkh_script h) -> length h = 20%nat ->
+  get_sig_segwit hash256 pr t sp idx m secret None None =
+  (d <- bip143_digest hash256 (Bip143.p2wpkh_script_code h) (sp_value s) ct idx 1 ;;
+   der <- pr_sign pr secret d ;; Ok (der ++ [1])).
+Proof. exact get_sig_segwit_p2wpkh_spec. Qed.
+Print Assumptions C05_get_sig_segwit_p2wpkh_spec.
+
+Theorem C05_get_sig_taproot_spec :
+  forall sha256 hash_tapsighash hash_tapleaf xonly_ok pr t ct sp coins idx m ti ext leaf secret ht aux,
+  standard_hash_type ht = true -> abs_tx t = Ok ct -> abs_list abs_spent sp = Ok coins ->
+  length sp = length (t_ins t) -> nth_error (t_ins t) idx = Some ti ->
+  in_u32 (Z.of_nat idx) = true ->
+  (forall a, annex_of (i_witness ti) = Some a -> in_u64 (zlen a) = true) ->
+  leaf_rel xonly_ok ext (i_witness ti) leaf ->
+  get_sig_taproot sha256 hash_tapsighash hash_tapleaf xonly_ok pr t sp idx m secret ext ht aux =
+  (d <- bip341_digest sha256 hash_tapsighash hash_tapleaf ct coins idx ht (annex_of (i_witness ti)) leaf ;;
+   s64 <- pr_sign_schnorr pr secret d aux ;;
+   Ok (if ht =? 0 then s64 else s64 ++ [ht])).
+Proof. exact get_sig_taproot_spec. Qed.
+Print Assumptions C05_get_sig_taproot_spec.
+
+Theorem C05_check_sig_spec :
+  forall hash256 pr t ct sp idx m s sec der,
+  abs_tx t = Ok ct -> nth_error sp idx = Some s ->
+  (forall redeem cb, abs_script redeem = Ok cb ->
+     check_sig_legacy hash256 pr t sp idx sec der (Some redeem) =
+     pr_ecdsa pr sec der (legacy_digest hash256 cb ct idx 1)) /\
+  (forall redeem wscript code cb, in_u64 (sp_value s) = true ->
+     bip143_script_code redeem wscript (Some (sp_script s)) = Ok code -> abs_script code = Ok cb ->
+     check_sig_segwit hash256 pr t sp idx m sec der redeem wscript =
+     (d <- bip143_digest hash256 cb (sp_value s) ct idx 1 ;; pr_ecdsa pr sec der d)).
+Proof. exact check_sig_spec. Qed.
+Print Assumptions C05_check_sig_spec.
+
+(* Tx.sign_input: which signer runs for which spent output *)
+Theorem C05_sign_input_dispatch :
+  forall hash256 sha256 hash_tapsighash hash_tapleaf xonly_ok pr C ripemd160 sha1 hash160
+         t sp idx m ti s secret compressed redeem ht,
+  nth_error (t_ins t) idx = Some ti -> nth_error sp idx = Some s ->
+  let c := s_cmds (sp_script s) in
+  let SI := sign_input hash256 sha256 hash_tapsighash hash_tapleaf xonly_ok pr C ripemd160 sha1 hash160
+              t sp idx m secret compressed redeem ht in
+  (is_p2pkh c = true ->
+   SI = sign_p2pkh hash256 sha256 hash_tapsighash hash_tapleaf xonly_ok pr C ripemd160 sha1 hash160
+          t sp idx m secret compressed) /\
+  (is_p2wpkh c = true ->
+   SI = sign_p2wpkh hash256 sha256 hash_tapsighash hash_tapleaf xonly_ok pr C ripemd160 sha1 hash160
+          t sp idx m secret compressed) /\
+  (is_p2sh c = true -> opt_is is_p2wpkh redeem = true ->
+   SI = sign_p2sh_p2wpkh hash256 sha256 hash_tapsighash hash_tapleaf xonly_ok pr C ripemd160 sha1 hash160
+          t sp idx m secret compressed) /\
+  (is_p2tr c = true -> opt_is is_p2wpkh redeem = false ->
+   SI = sign_p2tr_keypath hash256 sha256 hash_tapsighash hash_tapleaf xonly_ok pr C ripemd160 sha1 hash160
+          t sp idx m secret ht (repeatz 0 32)) /\
+  (is_p2pkh c = false -> is_p2wpkh c = false -> opt_is is_p2wpkh redeem = false -> is_p2tr c = false ->
+   SI = Err).
+Proof. exact sign_input_dispatch. Qed.
+Print Assumptions C05_sign_input_dispatch.
+
+(* Tx.sign_p2pkh / sign_p2wpkh / sign_p2sh_p2wpkh / sign_p2tr_keypath return True (the model of
+   Tx.verify_input, C06's Script.evaluate run with the digests of this Tx object, accepts the
+   finalised input) whenever the primitive accepts, for the digest in question, the signature it
+   has just made (which C01 / C02 prove for buidl/pecc.py under their side conditions) *)
+Theorem C05_sign_p2pkh_accepts :
+  forall hash256 sha256 hash_tapsighash hash_tapleaf xonly_ok pr C ripemd160 sha1 hash160
+         t sp idx m ti s secret compressed sec sg,
+  nth_error (t_ins t) idx = Some ti -> nth_error sp idx = Some s ->
+  pr_sec pr secret compressed = Ok sec ->
+  sp_script s = mk_script (p2pkh_script (hash160 sec)) ->
+  get_sig_legacy hash256 pr t sp idx secret None = Ok sg ->
+  (forall p z der, sig_hash_legacy hash256 t sp idx None 1 = Ok (p, z) ->
+                   pr_sign pr secret (DInt z) = Ok der -> pr_ecdsa pr sec der (DInt z) = Ok true) ->
+  sign_p2pkh hash256 sha256 hash_tapsighash hash_tapleaf xonly_ok pr C ripemd160 sha1 hash160
+    t sp idx m secret compressed =
+  Ok (tx_upd_in t idx (finalize_p2pkh sg sec), OTrue).
+Proof. exact sign_p2pkh_accepts. Qed.
+Print Assumptions C05_sign_p2pkh_accepts.
+
+Theorem C05_sign_p2wpkh_accepts :
+  forall hash256 sha256 hash_tapsighash hash_tapleaf xonly_ok pr C ripemd160 sha1 hash160
+         t sp idx m ti s secret compressed sec sg,
+  nth_error (t_ins t) idx = Some ti -> nth_error sp idx = Some s ->
+  pr_sec pr secret compressed = Ok sec ->
+  sp_script s = mk_script (p2wpkh_script (hash160 sec)) -> length (hash160 sec) = 20%nat ->
+  get_sig_segwit hash256 pr t sp idx m secret None None = Ok sg ->
+  (forall p z der, rsnd (sig_hash_bip143 hash256 t sp idx None None 1 m) = Ok (p, z) ->
+                   pr_sign pr secret (DInt z) = Ok der -> pr_ecdsa pr sec der (DInt z) = Ok true) ->
+  sign_p2wpkh hash256 sha256 hash_tapsighash hash_tapleaf xonly_ok pr C ripemd160 sha1 hash160
+    t sp idx m secret compressed =
+  Ok (tx_upd_in t idx (fun i => in_with_wit [sg; sec] (in_with_script empty_script i)), OTrue).
+Proof. exact sign_p2wpkh_accepts. Qed.
+Print Assumptions C05_sign_p2wpkh_accepts.
+
+Theorem C05_sign_p2sh_p2wpkh_accepts :
+  forall hash256 sha256 hash_tapsighash hash_tapleaf xonly_ok pr C ripemd160 sha1 hash160
+         t sp idx m ti s secret sec sg,
+  nth_error (t_ins t) idx = Some ti -> nth_error sp idx = Some s ->
+  pr_sec pr secret true = Ok sec ->
+  let redeem := 0 :: 20 :: hash160 sec in
+  sp_script s = mk_script (p2sh_script (hash160 redeem)) ->
+  length (hash160 sec) = 20%nat -> length (hash160 redeem) = 20%nat ->
+  get_sig_segwit hash256 pr t sp idx m secret (Some (mk_script [Op 0; Push (hash160 sec)])) None = Ok sg ->
+  (forall p z der,
+     rsnd (sig_hash_bip143 hash256 t sp idx (Some (mk_script [Op 0; Push (hash160 sec)])) None 1 m) = Ok (p, z) ->
+     pr_sign pr secret (DInt z) = Ok der -> pr_ecdsa pr sec der (DInt z) = Ok true) ->
+  sign_p2sh_p2wpkh hash256 sha256 hash_tapsighash hash_tapleaf xonly_ok pr C ripemd160 sha1 hash160
+    t sp idx m secret true =
+  Ok (tx_upd_in t idx (fun i => in_with_wit [sg; sec] (in_with_script (mk_script [Push redeem]) i)), OTrue).
+Proof. exact sign_p2sh_p2wpkh_accepts. Qed.
+Print Assumptions C05_sign_p2sh_p2wpkh_accepts.
+
+Theorem C05_sign_p2tr_keypath_accepts :
+  forall hash256 sha256 hash_tapsighash hash_tapleaf xonly_ok pr C ripemd160 sha1 hash160
+         t sp idx m ti s x secret ht aux sg,
+  nth_error (t_ins t) idx = Some ti -> nth_error sp idx = Some s ->
+  sp_script s = mk_script (p2tr_script x) -> length x = 32%nat -> xonly_ok x = true ->
+  has_annex (i_witness ti) = false -> s_cmds (i_script ti) = [] ->
+  get_sig_taproot sha256 hash_tapsighash hash_tapleaf xonly_ok pr t sp idx m secret 0 ht aux = Ok sg ->
+  (forall p msg s64,
+     rsnd (sig_hash_bip341 sha256 hash_tapsighash hash_tapleaf xonly_ok t sp idx 0 ht m) = Ok (p, msg) ->
+     pr_sign_schnorr pr secret (DBytes msg) aux = Ok s64 ->
+     length s64 = 64%nat /\ pr_schnorr pr x s64 (DBytes msg) = Ok true) ->
+  sign_p2tr_keypath hash256 sha256 hash_tapsighash hash_tapleaf xonly_ok pr C ripemd160 sha1 hash160
+    t sp idx m secret ht aux =
+  Ok (tx_upd_in t idx (finalize_p2tr_keypath sg), OTrue).
+Proof. exact sign_p2tr_keypath_accepts. Qed.
+Print Assumptions C05_sign_p2tr_keypath_accepts.
+
+(* ---------------- (9) Tx.verify_input: what an accepted input proves ---------------- *)
+
+(* whatever the scriptSig / witness: an accepted P2PKH / P2WPKH input supplies a key hashing to the
+   program and a signature the ECDSA primitive accepts for the digest of the signature's own hash
+   type byte (composition of the C06 soundness theorems with section (5)) *)
+Theorem C05_verify_input_p2pkh_sound :
+  forall hash256 sha256 hash_tapsighash hash_tapleaf xonly_ok pr C ripemd160 sha1 hash160 t sp idx m ti s h,
+  nth_error (t_ins t) idx = Some ti -> nth_error sp idx = Some s ->
+  sp_script s = mk_script (p2pkh_script h) ->
+  tx_verify_input hash256 sha256 hash_tapsighash hash_tapleaf xonly_ok pr C ripemd160 sha1 hash160
+    t sp idx m = Ok OTrue ->
+  exists sec sg d, hash160 sec = h /\
+    fresh_digest hash256 sha256 hash_tapsighash hash_tapleaf xonly_ok t sp idx (last sg 0) = Ok d /\
+    pr_ecdsa pr sec (removelast sg) d = Ok true.
+Proof. exact verify_input_p2pkh_sound. Qed.
+Print Assumptions C05_verify_input_p2pkh_sound.
+
+Theorem C05_verify_input_p2wpkh_sound :
+  forall hash256 sha256 hash_tapsighash hash_tapleaf xonly_ok pr C ripemd160 sha1 hash160 t sp idx m ti s h,
+  nth_error (t_ins t) idx = Some ti -> nth_error sp idx = Some s ->
+  sp_script s = mk_script (p2wpkh_script h) -> length h = 20%nat ->
+  tx_verify_input hash256 sha256 hash_tapsighash hash_tapleaf xonly_ok pr C ripemd160 sha1 hash160
+    t sp idx m = Ok OTrue ->
+  s_cmds (i_script ti) = [] /\
+  exists sec sg d, hash160 sec = h /\
+    fresh_digest hash256 sha256 hash_tapsighash hash_tapleaf xonly_ok t sp idx (last sg 0) = Ok d /\
+    pr_ecdsa pr sec (removelast sg) d = Ok true.
+Proof. exact verify_input_p2wpkh_sound. Qed.
+Print Assumptions C05_verify_input_p2wpkh_sound.
+
+Theorem C05_verify_input_p2tr_keypath_sound :
+  forall hash256 sha256 hash_tapsighash hash_tapleaf xonly_ok pr C ripemd160 sha1 hash160 t sp idx m ti s x sg,
+  nth_error (t_ins t) idx = Some ti -> nth_error sp idx = Some s ->
+  sp_script s = mk_script (p2tr_script x) -> length x = 32%nat ->
+  annex_stripped (i_witness ti) = [sg] ->
+  tx_verify_input hash256 sha256 hash_tapsighash hash_tapleaf xonly_ok pr C ripemd160 sha1 hash160
+    t sp idx m = Ok OTrue ->
+  sg <> [] /\ xonly_ok x = true /\
+  exists d, fresh_digest hash256 sha256 hash_tapsighash hash_tapleaf xonly_ok t sp idx (snd (schnorr_split sg)) = Ok d /\
+            pr_schnorr pr x (fst (schnorr_split sg)) d = Ok true.
+Proof. exact verify_input_p2tr_keypath_sound. Qed.
+Print Assumptions C05_verify_input_p2tr_keypath_sound.
+
+(* an accepted m-of-n P2WSH input: m signatures, each verifying under a different key of the
+   witness script, in key order, each against the digest of ITS OWN hash type byte *)
+Theorem C05_verify_input_p2wsh_multisig_sound :
+  forall hash256 sha256 hash_tapsighash hash_tapleaf xonly_ok pr C ripemd160 sha1 hash160
+         t sp idx m ti s x mq keys,
+  nth_error (t_ins t) idx = Some ti -> nth_error sp idx = Some s ->
+  sp_script s = mk_script (p2wsh_script x) -> length x = 32%nat ->
+  1 <= mq <= 16 -> 1 <= zlen keys <= 16 ->
+  parse_cmds (last (i_witness ti) []) = Ok (multisig_script mq keys) ->
+  tx_verify_input hash256 sha256 hash_tapsighash hash_tapleaf xonly_ok pr C ripemd160 sha1 hash160
+    t sp idx m = Ok OTrue ->
+  sha256 (last (i_witness ti) []) = x /\
+  exists sigs, zlen sigs = mq /\
+    embeds (own_digest_ver hash256 sha256 hash_tapsighash hash_tapleaf xonly_ok pr t sp idx) sigs (rev keys).
+Proof. exact verify_input_p2wsh_multisig_sound. Qed.
+Print Assumptions C05_verify_input_p2wsh_multisig_sound.
+
+Theorem C05_verify_input_p2sh_multisig_sound :
+  forall hash256 sha256 hash_tapsighash hash_tapleaf xonly_ok pr C ripemd160 sha1 hash160
+         t sp idx m ti s h mq keys,
+  nth_error (t_ins t) idx = Some ti -> nth_error sp idx = Some s ->
+  sp_script s = mk_script (p2sh_script h) -> length h = 20%nat ->
+  1 <= mq <= 16 -> 1 <= zlen keys <= 16 ->
+  tx_verify_input hash256 sha256 hash_tapsighash hash_tapleaf xonly_ok pr C ripemd160 sha1 hash160
+    t sp idx m = Ok OTrue ->
+  exists b, hash160 b = h /\
+    (parse_cmds b = Ok (multisig_script mq keys) ->
+     exists sigs, zlen sigs = mq /\
+       embeds (own_digest_ver hash256 sha256 hash_tapsighash hash_tapleaf xonly_ok pr t sp idx) sigs (rev keys)).
+Proof. exact verify_input_p2sh_multisig_sound. Qed.
+Print Assumptions C05_verify_input_p2sh_multisig_sound.
+
+(* history independence at the outermost verifier: the verdict on input idx depends neither on the
+   memo fields (earlier digest computations on the object) nor on the scriptSigs and witnesses of
+   the OTHER inputs — on any two states of the transaction that agree on the core and on input idx
+   itself, Tx.verify_input(idx) returns the same *)
+Theorem C05_verify_input_history_independent :
+  forall hash256 sha256 hash_tapsighash hash_tapleaf xonly_ok pr C ripemd160 sha1 hash160 t t' sp idx m m',
+  same_core t t' -> nth_error (t_ins t) idx = nth_error (t_ins t') idx ->
+  tx_verify_input hash256 sha256 hash_tapsighash hash_tapleaf xonly_ok pr C ripemd160 sha1 hash160 t sp idx m =
+  tx_verify_input hash256 sha256 hash_tapsighash hash_tapleaf xonly_ok pr C ripemd160 sha1 hash160 t' sp idx m'.
+Proof. exact tx_verify_input_same_input. Qed.
+Print Assumptions C05_verify_input_history_independent.
+
+(* in particular, signing / finalising input j leaves the verdict on every other input unchanged *)
+Theorem C05_verify_input_other_input_edit :
+  forall hash256 sha256 hash_tapsighash hash_tapleaf xonly_ok pr C ripemd160 sha1 hash160 t sp idx j f m m',
+  j <> idx -> (forall i, in_core_eq i (f i)) ->
+  tx_verify_input hash256 sha256 hash_tapsighash hash_tapleaf xonly_ok pr C ripemd160 sha1 hash160
+    (tx_upd_in t j f) sp idx m' =
+  tx_verify_input hash256 sha256 hash_tapsighash hash_tapleaf xonly_ok pr C ripemd160 sha1 hash160 t sp idx m.
+Proof. exact tx_verify_input_other_input_edit. Qed.
+Print Assumptions C05_verify_input_other_input_edit.
+
+(* … and in terms of the standards, for standard hash type bytes / BIP341-well-formed signatures *)
+Theorem C05_verify_input_p2wpkh_spec :
+  forall hash256 sha256 hash_tapsighash hash_tapleaf xonly_ok pr C ripemd160 sha1 hash160 t ct sp idx m ti s h,
+  abs_tx t = Ok ct -> nth_error (t_ins t) idx = Some ti -> nth_error sp idx = Some s ->
+  sp_script s = mk_script (p2wpkh_script h) -> length h = 20%nat -> in_u64 (sp_value s) = true ->
+  tx_verify_input hash256 sha256 hash_tapsighash hash_tapleaf xonly_ok pr C ripemd160 sha1 hash160
+    t sp idx m = Ok OTrue ->
+  exists sec sg, hash160 sec = h /\
+    (standard_hash_type (last sg 0) = true ->
+     exists p, Bip143.preimage hash256 (Bip143.p2wpkh_script_code h) (sp_value s) ct idx (last sg 0) = Some p /\
+               pr_ecdsa pr sec (removelast sg) (DInt (from_be (hash256 p))) = Ok true).
+Proof. exact verify_input_p2wpkh_spec. Qed.
+Print Assumptions C05_verify_input_p2wpkh_spec.
+
+Theorem C05_verify_input_p2pkh_spec :
+  forall hash256 sha256 hash_tapsighash hash_tapleaf xonly_ok pr C ripemd160 sha1 hash160 t ct sp idx m ti s h,
+  abs_tx t = Ok ct -> nth_error (t_ins t) idx = Some ti -> nth_error sp idx = Some s ->
+  sp_script s = mk_script (p2pkh_script h) -> length h = 20%nat ->
+  tx_verify_input hash256 sha256 hash_tapsighash hash_tapleaf xonly_ok pr C ripemd160 sha1 hash160
+    t sp idx m = Ok OTrue ->
+  exists sec sg, hash160 sec = h /\
+    (standard_hash_type (last sg 0) = true ->
+     pr_ecdsa pr sec (removelast sg)
+       (legacy_digest hash256 (Bip143.p2wpkh_script_code h) ct idx (last sg 0)) = Ok true).
+Proof. exact verify_input_p2pkh_spec. Qed.
+Print Assumptions C05_verify_input_p2pkh_spec.
+
+Theorem C05_verify_input_p2tr_keypath_spec :
+  forall hash256 sha256 hash_tapsighash hash_tapleaf xonly_ok pr C ripemd160 sha1 hash160
+         t ct sp coins idx m ti s x sg s64 ht,
+  abs_tx t = Ok ct -> abs_list abs_spent sp = Ok coins -> length sp = length (t_ins t) ->
+  nth_error (t_ins t) idx = Some ti -> nth_error sp idx = Some s ->
+  sp_script s = mk_script (p2tr_script x) -> length x = 32%nat ->
+  in_u32 (Z.of_nat idx) = true ->
+  (forall a, annex_of (i_witness ti) = Some a -> in_u64 (zlen a) = true) ->
+  zlen (snd (Bip341.split_annex (i_witness ti))) = 1 ->
+  annex_stripped (i_witness ti) = [sg] ->
+  taproot_sig_hash_type sg = Some (s64, ht) -> standard_hash_type ht = true ->
+  tx_verify_input hash256 sha256 hash_tapsighash hash_tapleaf xonly_ok pr C ripemd160 sha1 hash160
+    t sp idx m = Ok OTrue ->
+  exists p, Bip341.message sha256 hash_tapleaf ht ct coins idx (annex_of (i_witness ti)) None = Some p /\
+            pr_schnorr pr x s64 (DBytes (hash_tapsighash p)) = Ok true.
+Proof. exact verify_input_p2tr_keypath_spec. Qed.
+Print Assumptions C05_verify_input_p2tr_keypath_spec.
+
 (* ---------------- non-vacuity ---------------- *)
 
 Example C05_ex_hypotheses_satisfiable :
@@ -275,3 +1134,43 @@ Example C05_ex_history :
   outs = fresh_outputs idh idh idh idh (fun _ => true) ex_tx ex_spent ex_hist /\
   (exists a b, outs = [Ok a; Ok b] /\ so_alg a = 143 /\ so_alg b = 143 /\ so_pre a <> so_pre b).
 Proof. exact ex_history. Qed.
+
+(* a raw script that is canonically encoded in the sense of section (4): a 2-of-3 multisig script *)
+Example C05_ex_encodes :
+  exists raw, encodes [Op 82; Push (repeatz 2 33); Push (repeatz 3 33); Push (repeatz 4 33); Op 83; Op 174] raw /\
+              length raw = 105%nat.
+Proof. eexists. split; [split; vm_compute; reflexivity | reflexivity]. Qed.
+
+(* sections (5), (8) on the toy curve (Proofs/ToyCurve.v) with the primitives of Model/Pecc.v: signing a
+   P2WPKH input satisfies every hypothesis of C05_sign_p2wpkh_accepts, and the model of
+   Tx.sign_p2wpkh returns True *)
+Example C05_ex_toy_sign_p2wpkh :
+  pr_sec toy_prims 5 true = Ok (toy_sec 5) /\ length (toy_h160 (toy_sec 5)) = 20%nat /\
+  get_sig_segwit toy_h256 toy_prims toy_tx toy_spent 0 memo_empty 5 None None = Ok toy_sig /\
+  (forall p z der,
+     rsnd (sig_hash_bip143 toy_h256 toy_tx toy_spent 0 None None 1 memo_empty) = Ok (p, z) ->
+     pr_sign toy_prims 5 (DInt z) = Ok der -> pr_ecdsa toy_prims (toy_sec 5) der (DInt z) = Ok true) /\
+  sign_p2wpkh toy_h256 idh idh idh (fun _ => true) toy_prims toy idh idh toy_h160
+    toy_tx toy_spent 0 memo_empty 5 true =
+  Ok (tx_upd_in toy_tx 0 (fun i => in_with_wit [toy_sig; toy_sec 5] (in_with_script empty_script i)), OTrue).
+Proof. exact toy_sign_p2wpkh. Qed.
+
+(* one OP_CHECKMULTISIG, two signatures with DIFFERENT hash types: accepted; with the hash type
+   bytes exchanged, or one relabelled: rejected; the digests involved are pairwise different *)
+Example C05_ex_toy_multisig_mixed_hash_types :
+  op_checkmultisig toy_so (toy_stack (toy_sgn 5 1 1) (toy_sgn 3 130 130)) = Ok [[1]] /\
+  op_checkmultisig toy_so (toy_stack (toy_sgn 5 3 3) (toy_sgn 3 2 2)) = Ok [[1]] /\
+  op_checkmultisig toy_so (toy_stack (toy_sgn 5 1 130) (toy_sgn 3 130 1)) = Err /\
+  op_checkmultisig toy_so (toy_stack (toy_sgn 5 1 1) (toy_sgn 3 130 1)) = Err /\
+  NoDup (map (fun ht => tx_digest toy_h256 idh idh idh (fun _ => true) toy_tx2 toy_spent2 0 memo_empty ht)
+             [1; 2; 3; 130]).
+Proof. exact toy_multisig_mixed_hash_types. Qed.
+
+(* hypotheses of section (8): an edit that fills in scriptSig and witness keeps the core *)
+Example C05_ex_same_core :
+  same_core ex_tx (tx_upd_in ex_tx 0 (finalize_p2pkh [48; 1] [2; 3])) /\
+  wit_agree 0 [] [repeatz 1 64] /\ taproot_sig_hash_type (repeatz 1 64 ++ [131]) = Some (repeatz 1 64, 131).
+Proof.
+  split; [apply same_core_upd; intros i; repeat split|].
+  split; [right; repeat split | reflexivity].
+Qed.
